@@ -1,5 +1,6 @@
 import NetVerif.Model.TimeSeries
 import NetVerif.Gen.C61
+import NetVerif.Proofs.Lemmas.TimeSeriesHistory
 /-!
 C61 — time series keep an exact total of all observations.
 
@@ -11,6 +12,7 @@ The invariant is `total + (dirty ? pending : 0) = Σ`.
 -/
 namespace NetVerif.Proofs.C61
 open NetVerif.Model.TimeSeries
+open NetVerif.Proofs.TSRange (obsIn inI64 timesInRange alignedFinest addBehind noAddBehind)
 
 /-- Sum of the observations of a history, restarting at every `Clear`. -/
 def sumFrom (acc : Int) : List Op → Int
@@ -171,30 +173,10 @@ example : ((TS.init 2 [1, 3]).run [.add 100 5, .add 7 (-2), .latest 200 0 1, .ad
 
 /-! ### Part 2: bucket-aligned ranges (statement, counterexample on the unchanged code) -/
 
-/-- Sum of the observations of a history whose time lies in `(a, b]` (the bucket convention of
-`mergeValue`: a bucket ending at `E` holds the times `E - size < t ≤ E`), restarting at `Clear`. -/
-def obsIn (a b : Int) (acc : Int) : List Op → Int
-  | [] => acc
-  | .add t v :: rest => obsIn a b (if a < t ∧ t ≤ b then acc + v else acc) rest
-  | .clear :: rest => obsIn a b 0 rest
-  | _ :: rest => obsIn a b acc rest
-
-def inI64 (t : Int) : Bool := decide (minDur ≤ t ∧ t ≤ maxDur)
-
-/-- Every time that reaches `advance` is inside the range where `Time.UnixNano` is defined. -/
-def timesInRange : List Op → Bool
-  | [] => true
-  | .add t _ :: rest => inI64 t && timesInRange rest
-  | .latest now _ _ :: rest => inI64 now && timesInRange rest
-  | .latestBuckets now _ _ :: rest => inI64 now && timesInRange rest
-  | _ :: rest => timesInRange rest
-
-/-- `(a, b]` is aligned to the bucket grid of the finest level and starts inside its window. -/
-def alignedFinest (s : TS) (a b : Int) : Bool :=
-  match s.levels with
-  | [] => false
-  | l :: _ => decide (l.end_ - l.size * s.n ≤ a ∧ a ≤ b ∧ b - a ≤ maxDur ∧
-                      (l.end_ - a) % l.size = 0 ∧ (b - a) % l.size = 0)
+/- `obsIn a b 0 ops` (observations of the history with time in `(a, b]` — the bucket convention of
+`mergeValue`: a bucket ending at `E` holds `E - size < t ≤ E`), `timesInRange` (all add / clock times inside
+the int64-nanosecond range where `Time.UnixNano` is defined), `alignedFinest s a b` (range aligned to the
+finest level's grid, starting inside its window) are defined in Proofs/Lemmas/TimeSeriesHistory. -/
 
 /-- C61, second clause, for the public `TimeSeries` configuration: a bucket-aligned range inside
 the finest retained window reports exactly the observations added in it. -/
@@ -203,18 +185,13 @@ def RangeStatement : Prop :=
     alignedFinest (TS.newTimeSeries.run ops) a b = true →
     ((TS.newTimeSeries.run ops).range a b).2 = some ⟨obsIn a b 0 ops, false⟩
 
-/-- An add "behind an advanced level": it opens a new pending bucket (`t` is after `pendingTime`)
-although level 0 was already advanced past `t`'s bucket by `Latest`/`LatestBuckets`. The
-observation is then filed under `levels[0].end`, not under `t`. Decidable by running the model. -/
-def addBehind (s : TS) (t : Int) : Bool := decide (s.pendingTime < t ∧ t ≤ s.end0 - s.size0)
+/- `addBehind s t` (Lemmas/TimeSeriesHistory): the add opens a new pending bucket (`t` is after `pendingTime`)
+although level 0 was already advanced past `t`'s bucket by `Latest`/`LatestBuckets`
+(`pendingTime < t ≤ levels[0].end - resolution`); the observation is then filed under `levels[0].end`, not
+under `t`. `noAddBehind s ops` runs the model and checks that no add of the history is of that kind. -/
 
-def noAddBehind (s : TS) : List Op → Bool
-  | [] => true
-  | .add t v :: rest => !addBehind s t && noAddBehind (s.step (.add t v)) rest
-  | op :: rest => noAddBehind (s.step op) rest
-
-/-- The part of `RangeStatement` that the unchanged code satisfies (statement; see the report for
-what is proved of it). -/
+/-- The part of `RangeStatement` that the unchanged code satisfies: the excluded region is the decidable
+predicate `noAddBehind … = false`. Proved below (`range_holds_partial`). -/
 def RangePartialStatement : Prop :=
   ∀ (ops : List Op) (a b : Int), timesInRange ops = true → noAddBehind TS.newTimeSeries ops = true →
     alignedFinest (TS.newTimeSeries.run ops) a b = true →
@@ -243,6 +220,37 @@ theorem range_full_false : ¬ RangeStatement := by
   have := h witnessOps 1700000010000000000 1700000011000000000 w.1 w.2.1
   rw [w.2.2.1, w.2.2.2.1] at this
   exact absurd this (by decide)
+
+/-- **C61, second clause (finest level), on the unchanged code**: for every history with in-range times
+and no add behind an advanced level — adds in or out of order, far past, far future, interleaved with
+`Total`/`Latest`/`LatestBuckets`/`ComputeRange`/`Clear` — a bucket-aligned range inside the finest retained
+window reports exactly the observations added in it, with no approximation. -/
+theorem range_holds_partial : RangePartialStatement := by
+  intro ops a b hin hnb hal
+  exact TSRange.range_exact_general 64 1000000000 _ (by decide) (by decide) (by decide) (by decide) ops a b hin hnb hal
+
+/-- The same for `MinuteHourSeries` (60 buckets of 1 s). -/
+theorem range_holds_partial_minuteHour (ops : List Op) (a b : Int) (hin : timesInRange ops = true)
+    (hnb : noAddBehind TS.newMinuteHourSeries ops = true)
+    (hal : alignedFinest (TS.newMinuteHourSeries.run ops) a b = true) :
+    ((TS.newMinuteHourSeries.run ops).range a b).2 = some ⟨obsIn a b 0 ops, false⟩ :=
+  TSRange.range_exact_general 60 1000000000 _ (by decide) (by decide) (by decide) (by decide) ops a b hin hnb hal
+
+/-- Add-only histories (no `Latest`/`LatestBuckets` in between) never add behind an advanced level is
+NOT assumed anywhere: the theorem above carries the exact exclusion. Non-vacuity of its hypotheses: -/
+example : timesInRange [.add 1700000000500000000 5, .add 1700000030000000000 1, .add 1700000010500000000 7] = true ∧
+    noAddBehind TS.newTimeSeries [.add 1700000000500000000 5, .add 1700000030000000000 1, .add 1700000010500000000 7] = true ∧
+    alignedFinest (TS.newTimeSeries.run [.add 1700000000500000000 5, .add 1700000030000000000 1, .add 1700000010500000000 7])
+      1700000010000000000 1700000011000000000 = true := by decide +kernel
+
+/-- The coarser levels: statement only (tied by the differential run and the Go oracle, which checks
+aligned ranges of every level against a naive reference). -/
+def RangeCoarserStatement : Prop :=
+  ∀ (ops : List Op) (a b : Int) (k : Nat) (l : Level), timesInRange ops = true →
+    noAddBehind TS.newTimeSeries ops = true →
+    pickLevel 64 a (TS.newTimeSeries.run ops).levels = some l → (TS.newTimeSeries.run ops).levels[k]? = some l →
+    a ≤ b → b - a ≤ maxDur → (l.end_ - a) % l.size = 0 → (b - a) % l.size = 0 → l.end_ - l.size * 64 ≤ a →
+    ((TS.newTimeSeries.run ops).range a b).2 = some ⟨obsIn a b 0 ops, false⟩
 
 /-! ### T-tie: configuration tables regenerated from the Go source -/
 
